@@ -25,25 +25,25 @@ NA = {
 
 CHECKS = {
  "C12": {
-  "text": "Seeded search over call histories: one history process executes 2-12 load/loads calls (valid scripts, templates, scripts failing at every stage, echo probes mentioning earlier names in every syntactic slot) with injected file-read faults, interruptions (MemoryError/KeyboardInterrupt at an arbitrary line of blackbird's own code), environment changes and mutations of earlier results; every load outcome is compared with the same call in a pristine fork of a never-used zygote, and earlier results must stay unchanged. Evidence, not proof: a sampled history space with reach counters.",
-  "note": "Trusted: os.fork gives a pristine image; the warm-up of the zygote (generated parser only) is semantically invisible (a share of runs could use cold forks); deepcopy/render used for observation are read-only. Thread interleavings are deliberately out of scope (the library makes no thread-safety claim).",
+  "text": "Seeded search over call histories: one history process executes 2-12 load/loads calls (valid scripts, templates, scripts failing at every stage, echo probes mentioning earlier names in every syntactic slot) with injected file-read faults (errno, torn, flipped, short reads), interruptions (MemoryError/KeyboardInterrupt at a call line of the package's own code outside except/finally blocks), exceptions the caller keeps in garbage cycles with seeded collector timing, environment changes and mutations of earlier results; every load outcome is compared with the same call in a pristine fork of a never-used zygote, and earlier results must stay unchanged. Evidence, not proof: a sampled history space with reach counters.",
+  "note": "Reading taken: an interrupted load (Ctrl-C, MemoryError) is an 'earlier load attempt' in the sense of the statement, so leaving state behind on that path counts; code that cleans up in try/finally is never blamed for an exception inside the finally itself. Trusted: os.fork gives a pristine image (plus a private, emptied HOME/TMPDIR per child); the warm-up of the zygote (generated parser only) is semantically invisible (1 run in 32 uses completely cold pristine forks); deepcopy/render used for observation are read-only. Thread interleavings are deliberately out of scope (the library makes no thread-safety claim).",
   "technique": "deterministic simulation: seeded history + fault schedule, differential oracle against pristine fork",
   "design": "DESIGN.md §4.2",
  },
  "C13": {
   "text": "Seeded search over operation histories on aliased objects (templates, instances, graphs, match results): dumps, template calls (valid and failing), to_DiGraph, match_template, attribute reads, deep copies, interleaved with mutations of objects the history produced; a snapshot reference model (content digest + serialisation per object) is checked after every step. Weakest fit to the technique (no clock, I/O or schedule), stated in DESIGN.md.",
-  "note": "Trusted: copy.deepcopy and the renderer are read-only; mutations through containers documented as the program's own count as mutations of that program; edits through a graph node's args list (shared with the program by construction) are not generated.",
+  "note": "Reading taken: 'observably unchanged' includes what the program returns when used again (equal programs answer equal read-only operations equally), and an operation that raises - because of its input or because of an injected MemoryError/KeyboardInterrupt at a call line outside except/finally - must leave everything unchanged. Trusted: copy.deepcopy and the renderer are read-only; mutations through containers documented as the program's own count as mutations of that program; edits through a graph node's args list (shared with the program by construction) are not generated.",
   "technique": "deterministic simulation: seeded operation/fault history against a snapshot reference model",
   "design": "DESIGN.md §4.3",
  },
  "C07": {
-  "text": "Seeded search over environments: real directory trees on tmpfs with decoy files, process working directories, path styles, repeated loads, nested includes up to depth 3, 1-5 calls per subroutine, non-contiguous unsorted mode sets, template parameters, plus file-read faults (errno, tears at statement boundaries, byte flips in comments); oracle = an independent executable inlining model interpreting the same data model.",
-  "note": "Trusted: the reference model (bbsim/model07.py, no blackbird import) implements exactly the statement of C07; constructs the statement leaves open (registers inside includes, same program name in two included files, symlinks, circular includes) are not generated.",
+  "text": "Seeded search over environments: real directory trees on tmpfs with decoy files, process working directories, path styles, repeated loads, a symbolic link, a twin project with the same relative layout, nested includes up to depth 3, 1-5 calls per subroutine, non-contiguous unsorted mode sets, template parameters, plus file-read faults (errno, tears and short reads at statement boundaries, byte flips in comments); oracle = an independent executable inlining model interpreting the same data model.",
+  "note": "Trusted: the reference model (bbsim/model07.py, no blackbird import) implements exactly the statement of C07; constructs the statement leaves open (registers inside includes, same program name in two included files, '..' after a symbolic link, a call-site mode list naming a mode twice, circular includes, relative includes in loads()) are not generated; mismatched calls must raise (C11); keyword order inside an operation is not compared.",
   "technique": "deterministic simulation: seeded file-system/cwd/fault environment against an executable reference model",
   "design": "DESIGN.md §4.1",
  },
  "C19": {
-  "text": "K fresh interpreters, each with its own PYTHONHASHSEED derived from VERIF_SEED, plus one repeated seed, receive the same sequence of generated worlds (scripts and include trees); program content digests and serialisations must agree in all of them and the register/function pairing invariant must hold in each. The check reports itself ineffective if no iteration order actually differed.",
+  "text": "K fresh interpreters, each with its own PYTHONHASHSEED derived from VERIF_SEED, plus a second run of the first seed on the same directories and a run of it with assertions stripped (PYTHONOPTIMIZE), receive the same sequence of generated worlds (scripts and include trees); program content digests and serialisations must agree in all of them and the register/function pairing invariant must hold in each. The check reports itself ineffective if no iteration order actually differed.",
   "note": "Trusted: PYTHONHASHSEED is the only source of run-to-run nondeterminism in CPython relevant here; a few dozen of 2^32 seeds are sampled.",
   "technique": "deterministic simulation: interpreter hash seed as the controlled nondeterminism source, cross-run digest equality",
   "design": "DESIGN.md §4.4",
